@@ -87,6 +87,7 @@ class C19(Prop):
             "connect-go handler against the client limit given as the runner gives it; protocols x compressions sampled per seed "
             "(quick) or in full (thorough). c19.stream: the limit is per message - client streams and half-/full-duplex bidi "
             "streams of 2-3 request messages, each sized by expandRequestData to exactly the limit, with one of them at limit+1 "
+            "(and of 4, 5, 8 and 16 messages of exactly the limit, the last one at limit or limit+1: any bound on the whole body shows) "
             "(or limit-1) at each position, sent to the reference server by the reference client and by a plain HTTP client "
             "that declares the body length (Content-Length) or not (chunked / no length), over HTTP/1.1 and h2c, Connect, gRPC "
             "and gRPC-Web, identity and gzip (all six compressions in the thorough tier); server streams and bidi streams of 2-3 "
@@ -102,6 +103,7 @@ class C19(Prop):
             "non-trivial = padding changed, an error class other than range, an RPC verdict, or a suite with a directive")
     trusted_base = ("Coq 8.16.1 kernel (vm_compute used, native_compute not)", "extraction (ExtrOcamlBasic only) + ocaml/driver.ml",
                     "vlib generators/comparator, Go overlay harness files (build the request messages, classify error texts into 4 tags, "
+                    "the go/ast scan of TestVerifConsts that lists the read-limiting call sites of referenceserver / referenceclient, "
                     "the exact-size response handler used as the reference client's peer, the plain HTTP client of c19.stream that "
                     "envelopes/compresses the request messages itself and reads the end-of-stream status, the generated suite files "
                     "of c19.wiring and c19.load)",
@@ -118,7 +120,10 @@ class C19(Prop):
                   "reference peers and of the runner's own path. The limit is specified and exercised per message of a stream "
                   "(several sized messages per RPC, body length declared or not), and the loader's decision which test cases get "
                   "expanded is modelled and proved: for every suite (flag x mode x stream types x codecs) a marked case is expanded "
-                  "exactly or the load fails for a justified reason; compared with parseTestSuites on generated suite files.")
+                  "exactly or the load fails for a justified reason; compared with parseTestSuites on generated suite files. The readers the "
+                  "set-up code of both reference peers installs are in the model (per-message / per-body, table regenerated from the sources): "
+                  "proved that the documented chain is sharp per message, that ANY bound on the body refuses some stream of messages of exactly "
+                  "the limit, and that the installed readers are the documented chain; streams of up to 16 messages of exactly the limit run live.")
     level_note = ("Trusted: Coq kernel, extraction, OCaml driver, harness. Correspondence model/Go is sampled (windows around every "
                   "boundary), not proved. limit_sharp (`accepts`) is a specification that execution is compared with, not a theorem about "
                   "connect-go. Known finding wire-size-also-limited: connect-go applies the limit to the compressed envelope as well, so "
@@ -126,7 +131,9 @@ class C19(Prop):
                   "sharpness uses an exact-size connect-go handler as the peer of the real reference client, because the reference server "
                   "echoes the request in every unary / first stream response and so cannot send a response sized to the byte. "
                   "Full-duplex response streams are exercised with acceptable messages only (connect-go's client drains the response "
-                  "after a message above the limit while a full-duplex peer waits for the next request).")
+                  "after a message above the limit while a full-duplex peer waits for the next request). The table of installed readers "
+                  "is syntactic (calls of connect.WithReadMaxBytes, http.MaxBytesHandler/MaxBytesReader, io.LimitReader/LimitedReader in the two "
+                  "packages): a bound installed by other means shows only in the live streams of 4-16 messages.")
     technique = "Coq proof (fixed-point iteration on a step function, case split on varint classes); differential model-vs-Go; live RPC spec comparison"
 
     def nontrivial(self, case, res):
@@ -402,7 +409,39 @@ class C19(Prop):
                                 st_cases.append((1, pat, 0, hv, p, c, st, 0))
                             if c == 1 and st != 5:
                                 st_cases.append((1, [0, 0, 1], 0, hv, p, c, st, 1))
-        for side, pat, sender, hv, p, c, st, f in st_cases:
+        # the limit does not add up over a stream: 4, 5, 8 and 16 messages of exactly the limit (and the last one a
+        # byte above), identity (the body is 4, 5, 8, 16 x (limit + 5) bytes on the wire) and gzip, every sender,
+        # both HTTP versions, client streams and half-/full-duplex bidi streams; 5 and 8 responses of exactly the
+        # client's limit.  Any bound on the BODY that the set-up code adds shows here (C19_Model: chain_accepts).
+        long_cases = []
+        rot2 = [0]
+
+        def nx2(seq):
+            rot2[0] += 1
+            return seq[rot2[0] % len(seq)]
+        for n in (4, 5, 8, 16):
+            for sender in (0, 1, 2):
+                for hv in (1, 2):
+                    ps = protos(hv) if not quick else (1, nx2(protos(hv)[1:]))
+                    for p in ps:
+                        long_cases.append((0, [0] * n, sender, hv, p, 1, 2, (n + sender + hv) % 2))
+                    long_cases.append((0, [0] * (n - 1) + [1], sender, hv, nx2(protos(hv)), 1, 2, 0))
+                    if n in (5, 16):
+                        long_cases.append((0, [0] * n, sender, hv, nx2(protos(hv)), 2, 2, 0))
+                if n != 4:
+                    long_cases.append((0, [0] * n, sender, nx2((1, 2)), 1, 1, 4, 0))
+                    long_cases.append((0, [0] * n, sender, 2, nx2((1, 2, 3)), 1, 5, 0))
+                    long_cases.append((0, [0] * (n - 1) + [1], sender, 2, nx2((1, 2, 3)), 1, 5, 0))
+        for n in (5, 8):
+            for hv in (1, 2):
+                long_cases.append((1, [0] * n, 0, hv, nx2(protos(hv)), 1, 3, 0))
+                long_cases.append((1, [0] * (n - 1) + [1], 0, hv, nx2(protos(hv)), 1, nx2((3, 4)), 0))
+        # the reference server echoes EVERY request of a client stream / half-duplex stream in one response message: with
+        # the reference client as the sender that response must stay within the client's own limit (the harness answers
+        # bad-case otherwise); the plain HTTP senders do not mind
+        long_cases = [c for c in long_cases
+                      if not (c[0] == 0 and c[2] == 0 and c[6] != 5 and len(c[1]) * (L + 64) > lim["client"])]
+        for side, pat, sender, hv, p, c, st, f in st_cases + long_cases:
             yield ["c19.stream", side, list(pat), sender, hv, p, c, st, f]
 
         # ---- the loader: which test cases of a suite file get expanded ----
